@@ -45,6 +45,9 @@ type Decl struct {
 	AllowEmpty bool   `json:"allowEmpty,omitempty"` // allowEmptyValue (query / formData only)
 	Valid      string `json:"valid,omitempty"`      // named validation set, see validationJSON
 	Registry   string `json:"registry,omitempty"`   // "" the default formats registry | "own" the application's registry (userfmt.go)
+	// order of setup: the application's formats are added to the SAME registry AFTER the binder /
+	// the handler was built from it (strfmt registries are mutable; Add is legal at any time)
+	LateFormats bool `json:"lateFormats,omitempty"`
 }
 
 // Req is one request (the input axis): the occurrences of the parameter in its
@@ -66,7 +69,10 @@ type Case struct {
 	// multi-operation sweep (level "multiop"): the operations of one API, all declaring the
 	// same name in the same location, and the consecutive requests sent to one handler instance
 	// literal-grammar consistency: a text of the same class (same value, other padding) that was bound
-	Peer  *Txt   `json:"peer,omitempty"`
+	Peer *Txt `json:"peer,omitempty"`
+	// hostile-caller histories (hostile.go): the requests served before Q by the same binder /
+	// handler instance; after each of them the caller overwrote everything it had been handed
+	Prior []Req  `json:"prior,omitempty"`
 	Ops   []Decl `json:"ops,omitempty"`
 	Steps []Step `json:"steps,omitempty"`
 }
